@@ -1,5 +1,5 @@
 (* C15 -- SDO transfers deliver exactly the object's bytes, whatever the transfer type. *)
-From EC Require Import Base.Prelude Base.Bytes Wire.Layout Gen.SrcLayouts Coe.Sdo Coe.Server Coe.Run Coe.SdoProofs.
+From EC Require Import Base.Prelude Base.Bytes Wire.Layout Gen.SrcLayouts Coe.Sdo Coe.Server Coe.Run Coe.SdoProofs Coe.SdoArrays.
 Local Open Scope N_scope.
 
 (* The device is its out-mailbox queue (up to ten stale telegrams are read away first) and the
@@ -70,3 +70,41 @@ Print Assumptions c15_counter.
 Theorem c15_counter_step : forall req k d, d_counter (snd (exchange req k d)) = next_counter (d_counter d).
 Proof. exact exchange_counter. Qed.
 Print Assumptions c15_counter_step.
+
+(* writes: one expedited download acknowledged by the server - the request on the wire is the
+   download of exactly these 1..4 bytes to this index and sub-index, the call succeeds *)
+Theorem c15_write : forall d idx sub ca data c' per',
+  (length (d_q d) <= 10)%nat -> d_per d = [rep_download c' idx sub] :: per' ->
+  c' <= 7 -> idx < 65536 -> sub < 256 -> (length data <= 4)%nat -> (16 <= d_mlen d)%nat ->
+  sdo_write idx sub ca data d = (Ok tt, after d (req_download (d_counter d) idx sub ca data) per').
+Proof. exact write_ok. Qed.
+Print Assumptions c15_write.
+
+(* sdo_write_array: the count is cleared, every value goes to its sub-index 1.., then the count is
+   written; exactly these requests, in this order, with the mailbox counter stepping once each *)
+Theorem c15_write_array : forall d idx vals c0 cs cn per',
+  d_q d = [] ->
+  d_per d = [rep_download c0 idx 0] :: each_replies cs idx 1 vals ++ [rep_download cn idx 0] :: per' ->
+  c0 <= 7 -> cn <= 7 -> (forall c, In c cs -> c <= 7) -> (length vals <= length cs)%nat ->
+  idx < 65536 -> N.of_nat (length vals) < 256 ->
+  Forall (fun v => (length v <= 4)%nat) vals -> (16 <= d_mlen d)%nat ->
+  exists d', sdo_write_array idx vals d = (Ok tt, d') /\ d_per d' = per' /\
+    let q0 := req_download (d_counter d) idx 0 false [0] in
+    let c1 := next_counter (d_counter d) in
+    let cl := Nat.iter (length vals) next_counter c1 in
+    let ql := req_download cl idx 0 false [N.of_nat (length vals) mod 256] in
+    d_reqs d' = d_reqs d ++ [pad_to (Nat.max (d_wlen d) (length q0)) 0 q0] ++ each_reqs (d_wlen d) c1 idx 1 vals ++
+                [pad_to (Nat.max (d_wlen d) (length ql)) 0 ql].
+Proof. exact write_array_ok. Qed.
+Print Assumptions c15_write_array.
+
+(* sdo_read_array::<u16, MAX>: the count from sub-index 0, then that many values from the
+   sub-indices 1..count, returned in order *)
+Theorem c15_read_array : forall d idx max vals c0 cs per',
+  d_q d = [] -> d_per d = [rep_expedited c0 idx 0 [N.of_nat (length vals)]] :: array_replies cs idx 1 vals ++ per' ->
+  c0 <= 7 -> (forall c, In c cs -> c <= 7) -> (length vals <= length cs)%nat -> idx < 65536 ->
+  N.of_nat (length vals) < 256 -> (length vals <= max)%nat ->
+  Forall (fun v => v < 65536) vals -> (16 <= d_mlen d)%nat ->
+  exists d', sdo_read_array idx max d = (Ok vals, d') /\ d_per d' = per'.
+Proof. exact read_array_ok. Qed.
+Print Assumptions c15_read_array.
